@@ -138,6 +138,9 @@ package manager
 //@   locks m.targets[name]
 //@   requires m != nil
 //@   ensures [unknown-target-refused C13] !old(has(m.targets, name)) ==> res0 != nil
+//@   assert at call field target.reconnect#0: [session-cancelled-under-the-target-lock C13] wheld(t.mu)
+//@   assert at call (*sync.Mutex).Unlock#1: [the-cancel-handle-is-forgotten-in-the-critical-section-that-used-it C13] t.reconnect == nil
+//@   ensures [one-critical-section-per-call C13] hits("call (*sync.Mutex).Lock#1") <= old(hits("call (*sync.Mutex).Lock#1")) + 1
 
 //@ func (*Manager).reconnectCtx
 //@   props C13 C12
@@ -167,8 +170,12 @@ package manager
 
 // createConn tries the next hops until one connection request succeeds; whatever it
 // returns, the release function is non-nil (monitor defers it unconditionally).
+// connObtained / connReleased: connections handed out by createConn / release functions called (ghost).
+//@ ghost connObtained int
+//@ ghost connReleased int
 //@ func (*Manager).createConn
 //@   props C13 C12 C16
+//@   effect connObtained := connObtained + ite(res2 == nil, 1, 0)
 //@   requires m != nil && ctx != nil && m.connectionManager != nil
 //@   invariant 0: (forall k string :: !has($visited, k)) || err != nil
 //@   ensures [release-function-never-nil C16] res2 == nil ==> res1 != nil
@@ -181,11 +188,13 @@ package manager
 //@ func (*Manager).monitor
 //@   props C13 C12 C16
 //@   requires Wired(m) && ta != nil && ctx != nil && !inSession[ta.name]
-//@   modifies ghost inSession, ghost connectsN, ghost resetsN, ghost sendTimerArmed, ghost armedTimers, ghost streamRecvs, ghost updatesN, ghost syncsN, ghost lastUpdateMsg
+//@   modifies ghost inSession, ghost connectsN, ghost resetsN, ghost sendTimerArmed, ghost armedTimers, ghost streamRecvs, ghost updatesN, ghost syncsN, ghost lastUpdateMsg, ghost connObtained, ghost connReleased
 //@   ensures [session-closed-on-return C13] !inSession[ta.name]
+//@   ensures [an-obtained-connection-is-released-exactly-once-on-every-path C16] connReleased - old(connReleased) == connObtained - old(connObtained)
 //@   ensures [other-targets-untouched C13] forall k string :: k != ta.name ==> inSession[k] == old(inSession[k])
 // The release function createConn hands on (a connection manager's done function).
 //@ func result (*Manager).createConn
+//@   effect connReleased := connReleased + 1
 //@   note release functions are assumed not to touch the manager or the callback trace
 // The deferred error report of an attempt runs on the monitoring goroutine itself (so that it is over before the
 // completion signal Remove waits for), once, exactly when the attempt failed and a handler is installed.
@@ -206,7 +215,7 @@ package manager
 //@   props C13 C12
 //@   requires Wired(m) && ta != nil && ctx != nil && !inSession[ta.name]
 //@   requires ta.finished != nil && !closed(ta.finished) && !isctxdone(ta.finished)
-//@   modifies ghost inSession, ghost connectsN, ghost resetsN, ghost sendTimerArmed, ghost armedTimers, ghost streamRecvs, ghost updatesN, ghost syncsN, ghost lastUpdateMsg, closed(ta.finished), ghost boResets, ghost lastSince, ghost boMark, ghost meMark
+//@   modifies ghost inSession, ghost connectsN, ghost resetsN, ghost sendTimerArmed, ghost armedTimers, ghost streamRecvs, ghost updatesN, ghost syncsN, ghost lastUpdateMsg, closed(ta.finished), ghost boResets, ghost lastSince, ghost boMark, ghost meMark, ghost connObtained, ghost connReleased
 //@   invariant 0: [attempts-start-and-end-outside-a-session C13] !inSession[ta.name] && !closed(ta.finished) && sCtx != nil && timer != nil
 //@     && (forall k string :: k != ta.name ==> inSession[k] == old(inSession[k]))
 //@   invariant 0: [retries-never-give-up-and-back-off-as-configured C13] e != nil && e.MaxElapsedTime == 0 && e.InitialInterval == RetryBaseDelay && e.MaxInterval == RetryMaxDelay
@@ -224,3 +233,11 @@ package manager
 //@   requires m != nil && ta != nil && timer != nil && ta.finished != nil && !closed(ta.finished) && !inSession[ta.name]
 //@   modifies closed(ta.finished), ghost sendTimerArmed, ghost armedTimers
 //@   ensures closed(ta.finished)
+
+// The request sent to a target is a copy of the configured template with this target's name in the prefix (the
+// template itself, shared between targets, is left alone: default frame).
+//@ func customizeRequest
+//@   props C13 C01 C12
+//@   ensures [own-copy-of-the-template C01] sr != nil ==> res0 != nil && fresh(res0)
+//@   ensures [target-stamped-in-the-prefix C01] sr != nil && isa(res0.Request.(*gpb.SubscribeRequest_Subscribe)) && res0.Request.(*gpb.SubscribeRequest_Subscribe).Subscribe != nil
+//@     ==> res0.Request.(*gpb.SubscribeRequest_Subscribe).Subscribe.Prefix != nil && res0.Request.(*gpb.SubscribeRequest_Subscribe).Subscribe.Prefix.Target == target
